@@ -141,7 +141,7 @@ def ob_m_list(ob):
 # ------------------------------------------------------------------ S: real loops over the proved contract
 NUMS_SEC = (1, 2, 9, 10, 36, 99)
 NUMS_LOT = (1, 9, 10, 99, 100, 999)
-S_SEPS = ['-', ' through ', ', ', ', and ', ' & ']      # one representative per connective class for the loop harness
+S_SEPS = ['-', ' through ', ' THRU ', ' To ', ', ', ', and ', ' & ', ' AND ']      # representatives per connective class and casing
 
 
 def denoted(nums, seps):
@@ -149,7 +149,7 @@ def denoted(nums, seps):
     out = [nums[0]]
     desc = False
     for n, s in zip(nums[1:], seps):
-        if s in THRU:
+        if s.lower() in THRU:
             a = out[-1]
             step = 1 if n >= a else -1
             if n < a:
@@ -175,7 +175,7 @@ def ob_s_loops(ob):
 
         def groupdict(self):
             d = {num: str(self.items[0]), numr: (str(self.items[self.j]) if self.j > 0 else None),
-                 'intervener': (self.seps[self.j - 1][INT_OFF.get(self.seps[self.j - 1], 0):] if self.j > 0 else None)}
+                 'intervener': (self.seps[self.j - 1][INT_OFF.get(self.seps[self.j - 1].lower(), 0):] if self.j > 0 else None)}
             if kind == 'lot':
                 d.update(word_lot_rightmost=None, plural=None, acreage=None, acreage_notfirst=None)
             return d
@@ -213,7 +213,7 @@ def ob_s_loops(ob):
         nums = [choose(n, nums_tab) for n in ns[:k]]
         seps = [choose(s, S_SEPS) for s in ss[:k - 1]]
         for a, b in zip(seps, seps[1:]):
-            if a in THRU and b in THRU:
+            if a.lower() in THRU and b.lower() in THRU:
                 return True          # chained ranges are outside the oracle
         exp, desc = denoted(nums, seps)
         saved = getattr(U, pname)
@@ -269,6 +269,9 @@ def ob_s_loops(ob):
     return from_explore(st, info, mk)
 
 
+API_SEPS = SEPS + [' THROUGH ', ' Thru ', ' TO ', ' AND ']
+
+
 def ob_api(ob):
     """rendered lists through the public API: find_sec, PLSSDesc tract order, Tract.lots / ilots / warnings agree with the denoted sequence"""
     from engine.xh import explore, choose
@@ -287,9 +290,9 @@ def ob_api(ob):
     def run(k, w, ns, ss, rp):
         k = choose(k, range(1, kmax + 1))
         nums = [choose(n, nums_tab) for n in ns[:k]]
-        seps = [choose(s, SEPS) for s in ss[:k - 1]]
+        seps = [choose(s, API_SEPS) for s in ss[:k - 1]]
         for a, b in zip(seps, seps[1:]):
-            if a in THRU and b in THRU:
+            if a.lower() in THRU and b.lower() in THRU:
                 return True
         rep = choose(rp, reps)
         text = choose(w, words) + str(nums[0]) + ''.join(s + (rep if s.endswith(' ') or not rep else ' ' + rep) + str(n) for s, n in zip(seps, nums[1:]))
@@ -311,7 +314,7 @@ def ob_api(ob):
             a = v['args']
             k = cl(a['k'], kmax) + 1
             nums = [nums_tab[cl(a[f'n{i}'], len(nums_tab))] for i in range(k)]
-            seps = [SEPS[cl(a[f's{i}'], len(SEPS))] for i in range(k - 1)]
+            seps = [API_SEPS[cl(a[f's{i}'], len(API_SEPS))] for i in range(k - 1)]
             rep = reps[cl(a['rp'], len(reps))]
             text = words[cl(a['w'], len(words))] + str(nums[0]) + ''.join(s + (rep if s.endswith(' ') or not rep else ' ' + rep) + str(n) for s, n in zip(seps, nums[1:]))
             out.append(violation(f'list-api:{kind}', f'{text!r}: {api_verdict(text, kind, nums, seps)}; {v["exc"]}', 'c05_api',
